@@ -177,6 +177,18 @@ func init() {
 		res["r"] = []any{"bool", xsort.SliceIsSorted(x, xsort.Less[int](decodeRel(a[0])))}
 		res["after"] = nn(x)
 	}
+	// Slice / SliceStable sort in place: the observation is x afterwards. Items carry a tag the order does not
+	// see (["keylt", d]: key = item/d, tag = item%d), so the order in which equivalent items come out is visible.
+	calls["xsort.Slice"] = func(a []any, res map[string]any) {
+		x := ints(a[1])
+		xsort.Slice(x, xsort.Less[int](decodeRel(a[0])))
+		res["r"] = []any{"list", nn(x)}
+	}
+	calls["xsort.SliceStable"] = func(a []any, res map[string]any) {
+		x := ints(a[1])
+		xsort.SliceStable(x, xsort.Less[int](decodeRel(a[0])))
+		res["r"] = []any{"list", nn(x)}
+	}
 	calls["xsort.Search"] = func(a []any, res map[string]any) {
 		x := ints(a[1])
 		res["r"] = []any{"int", xsort.Search(x, xsort.Less[int](decodeRel(a[0])), num(a[2]))}
